@@ -530,9 +530,9 @@ func (s *Service) issue(ctx context.Context, peer boson.Address, recipient, bene
 		return ErrInsufficientFunds
 	}
 
-	cumulativePayout := traffic.retrieveChequeTraffic
-	// increase cumulativePayout by amount
-	cumulativePayout = cumulativePayout.Add(cumulativePayout, balance)
+	// increase cumulativePayout by amount; the record's big.Int may be shared with
+	// retrieveChainTraffic/retrieveTraffic after trafficInit and must not be modified in place
+	cumulativePayout := new(big.Int).Add(traffic.retrieveChequeTraffic, balance)
 	// create and sign the new cheque
 	c := chequePkg.Cheque{
 		Recipient:        recipient,
